@@ -662,6 +662,13 @@ func historyPhase(c *core.Ctx, targets []histTarget) {
 				}
 			}
 			c.Hist("history " + run.kind)
+			if pi%601 == 0 {
+				var roles []string
+				for _, s := range run.steps {
+					roles = append(roles, s.role)
+				}
+				c.Sample(map[string]any{"history": run.kind, "files": roles, "first_file_quoted": strconv.Quote(trunc(run.steps[0].src, 200))})
+			}
 		}
 		// leave the process as it was found: the last thing formatted is a good file on its own
 		formatOnce(targets[0].src)
